@@ -144,6 +144,7 @@ def units(tier):
             for native in ((False, True) if cancel is not None else (False,)):
                 add("B n=2 aa fast=%s cancel=%s native=%s" % (fast, cancel, native), n=2, modes="aa", cancel=cancel, native=native, fast=fast)
     add("B n=2 an", n=2, modes="an", cancel=0)
+    add("B n=2 aa eager cancel=1 native (quick)", n=2, modes="aa", cancel=1, native=True, eager=True, T=1)
     add("B n=2 na", n=2, modes="na", cancel=1)
     add("B n=2 intruder", n=2, modes="aa", intruder=True)
     add("B n=2 pa acquire-in-cancelled-scope", n=2, modes="pa")
